@@ -2,6 +2,7 @@ package worlds
 
 import (
 	"context"
+	"errors"
 	"fmt"
 	"strconv"
 	"strings"
@@ -113,7 +114,11 @@ type StoreWorld struct {
 	Log      []Commit
 	Variant  string
 	onCommit func(Commit)
+	// failWrite, if set, may reject a backing-store write before it is applied (fault injection)
+	failWrite func(kind, typ, id string) error
 }
+
+var errStoreFault = errors.New("injected store fault: write rejected")
 
 // eventTriggers lets harness tasks react to named harness events (a probe finished reading, a reconcile returned).
 type eventTriggers struct{ waiting map[string][]chan struct{} }
@@ -223,6 +228,12 @@ func NewStoreWorld(variant string, h HistCfg) *StoreWorld {
 			if strings.Contains(variant, "+preload") {
 				tp.Preload = preloaded()
 			}
+			tp.Fail = func(kind string, typ, id string) error {
+				if w.failWrite != nil {
+					return w.failWrite(kind, typ, id)
+				}
+				return nil
+			}
 			o = append(o, inmem.WithBackingStore(tp))
 		}
 		return inmem.NewStateWithOptions(o...)(ns)
@@ -258,10 +269,14 @@ type ErrClass struct {
 	Owner    bool
 	Phase    bool
 	Other    string
+	// Injected: the backing store rejected the write (fault injection); the call must have had no effect
+	Injected bool
 }
 
 func (e ErrClass) String() string {
 	switch {
+	case e.Injected:
+		return "store-rejected"
 	case e.NotFound:
 		return "notfound"
 	case e.Owner:
@@ -310,6 +325,17 @@ func classify(err error, ns, typ string) (c ErrClass, problem string) {
 		}
 		if state.IsConflictError(err, state.WithResourceType(typ+"-other")) {
 			return c, fmt.Sprintf("IsConflictError(WithResourceType(other)) accepts a conflict of type %q: %v", typ, err)
+		}
+		// both qualifiers, one matching and one not (in both argument orders)
+		for _, opts := range [][]state.ErrcheckOption{
+			{state.WithResourceType(typ), state.WithResourceNamespace(ns + "-other")},
+			{state.WithResourceNamespace(ns + "-other"), state.WithResourceType(typ)},
+			{state.WithResourceType(typ + "-other"), state.WithResourceNamespace(ns)},
+			{state.WithResourceNamespace(ns), state.WithResourceType(typ + "-other")},
+		} {
+			if state.IsConflictError(err, opts...) {
+				return c, fmt.Sprintf("IsConflictError with one matching and one non-matching qualifier accepts a conflict of %s/%s: %v", ns, typ, err)
+			}
 		}
 	}
 	return c, ""
